@@ -243,6 +243,10 @@ pub fn expand(content: Content, len: usize, seed: u64) -> Vec<u8> {
 pub enum Payload {
     Gen { content: Content, len: usize, seed: u64 },
     Raw(Bytes),
+    /// the inner payload wrapped the way a compressing layer would store it (input preparation
+    /// only, never part of an oracle): kind 0 = complete zstd frame, 1 = lz4 block with length
+    /// prefix, 2 = zstd frame + one trailing byte, 3 = zstd magic followed by the inner bytes
+    Framed { kind: u8, inner: Box<Payload> },
 }
 
 impl Payload {
@@ -250,14 +254,57 @@ impl Payload {
         match self {
             Payload::Gen { content, len, seed } => expand(*content, *len, *seed),
             Payload::Raw(b) => b.0.clone(),
+            Payload::Framed { kind, inner } => frame(*kind, &inner.bytes()),
         }
     }
     pub fn class(&self) -> String {
         match self {
             Payload::Gen { content, .. } => format!("{:?}", content),
             Payload::Raw(_) => "Raw".to_string(),
+            Payload::Framed { kind, .. } => format!("Framed{}", kind % 4),
         }
     }
+}
+
+const ZSTD_MAGIC: [u8; 4] = [0x28, 0xB5, 0x2F, 0xFD];
+
+/// `data` as a compressing layer would store it (see `Payload::Framed`).  zipora's own codec
+/// wrappers are used as plain tools here; if one refuses, the bytes stay as they are.
+pub fn frame(kind: u8, data: &[u8]) -> Vec<u8> {
+    use zipora::compression::Compressor;
+    let zstd = |d: &[u8]| match std::panic::catch_unwind(|| zipora::compression::ZstdCompressor::new(3).compress(d)) {
+        Ok(Ok(z)) => z,
+        _ => d.to_vec(),
+    };
+    match kind % 4 {
+        0 => zstd(data),
+        1 => match std::panic::catch_unwind(|| zipora::compression::Lz4Compressor.compress(data)) {
+            Ok(Ok(z)) => z,
+            _ => data.to_vec(),
+        },
+        2 => {
+            let mut z = zstd(data);
+            z.push(0x5a);
+            z
+        }
+        _ => {
+            let mut z = ZSTD_MAGIC.to_vec();
+            z.extend_from_slice(data);
+            z
+        }
+    }
+}
+
+/// payloads that are themselves stored forms (complete frames, nearly-frames)
+pub fn framed(len: BoxedStrategy<usize>) -> BoxedStrategy<Payload> {
+    (
+        prop_oneof![4 => Just(0u8), 2 => Just(1u8), 1 => Just(2u8), 1 => Just(3u8)],
+        proptest::sample::select(vec![Content::Text, Content::Constant, Content::Runs, Content::Uniform, Content::KSymbol]),
+        len,
+        any::<u64>(),
+    )
+        .prop_map(|(kind, content, len, seed)| Payload::Framed { kind, inner: Box::new(Payload::Gen { content, len, seed }) })
+        .boxed()
 }
 
 /// Payload strategy: lengths from `len`, all content classes plus short raw byte vectors.
